@@ -62,7 +62,7 @@ def pipeline(zone, east, north, ell_ht, vcv, forward):
 '''
 
 
-def run(repo, rep):
+def _run(repo, rep):
     alg.reset()
     common.state_rule(repo, rep, [('geodepy.transform', 'transform_mga94_to_mga2020'), ('geodepy.transform', 'transform_mga2020_to_mga94')])
     published_rules(repo, rep)
@@ -397,6 +397,14 @@ def wire_only(repo, rep):
 def stage_only(repo, rep):
     alg.reset()
     stage_rules(repo, rep)
+
+
+def run(repo, rep):
+    from ..symval import INPLACE_EVENTS
+    del INPLACE_EVENTS[:]
+    _run(repo, rep)
+    # in-place array updates met while evaluating the functions above (element type follows the caller's numbers)
+    common.dtype_rule(repo, rep, [('geodepy.transform', 'conform7'), ('geodepy.transform', 'transform_mga94_to_mga2020'), ('geodepy.transform', 'transform_mga2020_to_mga94'), ('geodepy.statistics', 'vcv_local2cart'), ('geodepy.statistics', 'vcv_cart2local'), ('geodepy.statistics', 'rotation_matrix')])
 
 
 def controls(repo):
